@@ -833,8 +833,17 @@ class C19(PropBase):
             ctx = [int(x) for x in t[i + 1:i + 18]]
             i += 18
         i += 2  # instr, stack
+        instr_regs = None
         if t[i] == "D":
-            i += 7 + 4 * int(t[i + 6])
+            # the generator's own decoding of the instruction it encoded: only the base / index registers of its memory operands are
+            # "crashing-instruction registers" (ids >= 100: 32-bit registers the amd64 context cannot read)
+            nops = int(t[i + 6])
+            instr_regs = set()
+            for k in range(nops):
+                for r in (int(t[i + 7 + 4 * k]), int(t[i + 8 + 4 * k])):
+                    if 0 <= r < 100:
+                        instr_regs.add(r)
+            i += 7 + 4 * nops
         else:
             i += 1
         kind, n = int(t[i]), int(t[i + 1])
@@ -854,7 +863,8 @@ class C19(PropBase):
             br = (0, 48) if arch == 9 else (0, 64)
         if ctx:
             for k, v in enumerate(ctx):
-                examined[k] = v
+                if instr_regs is None or k in instr_regs:
+                    examined[k] = v
         return self.judge(flips, examined, br, kind, regs, op, reg_fixed=None)
 
     def judge(self, flips, examined, br, kind, regs, op, reg_fixed):
@@ -864,7 +874,7 @@ class C19(PropBase):
             if reg_fixed is not None and reg != (-1 if reg_fixed < 0 else reg_fixed):
                 return "flip carries source register %d, expected %d" % (reg, reg_fixed)
             if reg not in examined:
-                return "flip attributed to register %d which was not examined" % reg
+                return "flip attributed to register %d, which is not a register of the crashing instruction" % reg
             a = examined[reg]
             d = a ^ addr
             if d == 0 or d & (d - 1) != 0:
